@@ -227,6 +227,11 @@ def print_module_code(code_dict: Dict[str, str], numba=False):
 
     code += code_dict['F']
     code += '\n\r\n'
+    # F_ fills the module-level buffer _F_. Hand out a copy, so that the results of different calls
+    # (e.g. F(t+dt) - F(t) in the solvers) are different arrays.
+    code += '_F_fill_ = F_\n\r\n'
+    code += 'def F_(*args):\n    return _F_fill_(*args).copy()\n'
+    code += '\n\r\n'
     if numba:
         code += '@njit(cache=True)\n'
     code += code_dict['inner_F']
